@@ -21,6 +21,7 @@ from vf.refs import ahab_ref as R
 
 ID = "C06"
 ROTATING_PKI = 0.3  # fraction of the key / certificate paths that are rotating slots (vf/pki.py)
+DECOY_CWD = True  # the worker runs in a directory that holds other bytes under every input file name (vf/worker.py)
 LEVEL = "exploration"
 TECHNIQUE = ("runtime monitoring: SPSDK verifier + parse/re-export laws + independent container walker "
              "(hashlib, pure-Python ECDSA/RSA-PSS/AES-CBC) over generated configurations; single-bit corruption sweeps")
